@@ -26,6 +26,7 @@ import random
 import re
 import shutil
 import subprocess
+import zlib
 from concurrent.futures import ThreadPoolExecutor
 
 from harness.c03 import gen as G
@@ -33,7 +34,7 @@ from harness.vlib import buildsim as B
 from harness.vlib.core import PY, VERIF, Ctx, ToolFailure, repo_env
 
 MODEL_FILES = ["MypyVerif/Model/FineGrained.lean", "MypyVerif/Model/FsWatch.lean", "MypyVerif/Proofs/FineGrained.lean",
-               "MypyVerif/Proofs/FsWatch.lean"]
+               "MypyVerif/Proofs/FsWatch.lean", "MypyVerif/Proofs/FineGrainedSem.lean"]
 MODES = ["normal", "skip", "error"]
 WORKER = os.path.join(VERIF, "harness", "c03", "worker.py")
 NPROC = 6
@@ -48,7 +49,10 @@ def with_clock(steps: list[dict], same_second: set[int] = frozenset()) -> list[d
     for k, st in enumerate(steps):
         if k not in same_second:
             clock += 2
-        out.append(dict(st, clock=clock))
+        # half of the steps that keep the file set are answered by `dmypy recheck` (cmd_recheck) instead of `check`
+        same_files = k > 0 and sorted(st["files"]) == sorted(steps[k - 1]["files"])
+        recheck = same_files and zlib.crc32(json.dumps(st["files"], sort_keys=True).encode()) % 2 == 0
+        out.append(dict(st, clock=clock, recheck=recheck))
     return out
 
 
@@ -254,7 +258,8 @@ def step_events(prev_files: dict | None, files: dict, edits: list[dict], hist_st
 
 def replay_of(h: dict, k: int, diff) -> dict:
     return {"mode": h["mode"], "step": k, "diff": diff, "kind": h["kind"], "name": h.get("name"),
-            "history": [{"edits": s["edits"], "files": s["files"], "touch": s.get("touch", []), "clock": s["clock"]} for s in h["steps"][:k + 1]]}
+            "history": [{"edits": s["edits"], "files": s["files"], "touch": s.get("touch", []), "clock": s["clock"],
+                         "recheck": s.get("recheck", False)} for s in h["steps"][:k + 1]]}
 
 
 def check_outputs(ctx: Ctx, h: dict, count: bool = True) -> tuple[bool, bool]:
@@ -276,6 +281,7 @@ def check_outputs(ctx: Ctx, h: dict, count: bool = True) -> tuple[bool, bool]:
                      nontrivial=nontrivial)
             ctx.dist("history_kind", h["kind"])
             ctx.dist("follow_imports", h["mode"])
+            ctx.dist("request", "first-check" if k == 0 else ("recheck" if st.get("recheck") else "check"))
             for e in st["edits"]:
                 ctx.dist("edit_kind", e.get("kind", "none"))
                 if e.get("scenario"):
@@ -292,8 +298,6 @@ def check_outputs(ctx: Ctx, h: dict, count: bool = True) -> tuple[bool, bool]:
             if hist_state["new_stdlib_imports"] and h["mode"] == "normal" and d["crash"] == "KeyError" and \
                     any(w.startswith("dmypy_server.py:") for w in where):
                 obs = {"class": "daemon-crash-on-new-stdlib-import", "exception": "KeyError", "follow_imports": "normal"}
-            elif hist_state.get("blocker_seen") and d["crash"] == "KeyError" and d.get("message") == "'builtins'":
-                obs = {"class": "daemon-crash-after-blocking-error", "exception": "KeyError"}
             ctx.report(obs, f"the daemon crashed on a check request ({d['crash']}: {d.get('message')}; {' < '.join(reversed(where))}) "
                             f"where a full check answers normally ({h['kind']} history, follow-imports={h['mode']}, step {k})",
                        dict(replay_of(h, k, None), traceback=d.get("traceback")))
